@@ -301,6 +301,26 @@ def _run_obligations(ob: Obligations, repo_root: str, static: dict, tier: str, s
            what="PulserData.get_sequences turns samples.trajectory.interaction_matrix into the n x n matrix the backends index",
            where="emu_base/pulser_adapter.py:PulserData.get_sequences")
 
+    def _c_matrix_cfg():
+        from emu_base import PulserData
+        from emu_sv import SVConfig
+        given = torch.tensor([[0.0, 1.0, 0.5], [1.0, 0.0, 1.0], [0.5, 1.0, 0.0]], dtype=torch.float64)
+        cfg = SVConfig(dt=10, observables=[pulser.backend.BitStrings(evaluation_times=[1.0])], log_level=100,
+                       gpu=False, interaction_matrix=given.tolist())
+        shape = tuple(cfg.interaction_matrix.as_tensor().shape)
+        try:
+            sds = list(PulserData(sequence=seq, config=cfg, dt=cfg.dt).get_sequences())
+        except Exception as e:
+            raise type(e)(f"{e} [pulser stores config.interaction_matrix with shape {shape}]") from e
+        for sd in sds:
+            got = sd.interaction_matrix(sd.target_times[-1])
+            check(tuple(got.shape) == (N, N), f"shape {tuple(got.shape)}; config.interaction_matrix has shape {shape}")
+            check(torch.allclose(got.to(torch.float64), given), "adapter matrix differs from the configured one")
+        return f"pulser shape {shape} -> ({N}, {N})"
+    ob.run("smoke/contract:interaction-matrix-from-config", _c_matrix_cfg,
+           what="a user-supplied EmulationConfig.interaction_matrix (n x n) reaches the backends as that n x n matrix",
+           where="emu_base/pulser_adapter.py:PulserData.__init__")
+
     seq_xy = build_sequence(N, "XY")
 
     def _c_matrix_xy():
